@@ -146,17 +146,110 @@ func genOnce(mem *MemFS, root string, order compile.VerifLinkOrder, o gen.Option
 	return genOutcome{digest: "ok tree=" + tree + " request=" + hex.EncodeToString(rq[:8]), paths: paths, detail: canonRequest(cp.req)}
 }
 
+// plantedChain builds a program by hand (not through the model generator): a
+// service inheritance chain that crosses 3-5 modules, each of which includes
+// only the next one, so the root reaches the deep modules only transitively;
+// next to it 1-3 sibling modules that include a deep module of the chain
+// directly. Which of the root's includes is generated first is then decided by
+// whatever order the generator walks them in: a result (or a plugin request)
+// that depends on that order shows up as a difference between runs.
+func plantedChain(r *core.Rand) *idlm.Program {
+	depth := r.Range(3, 5)
+	dirs := []string{"", "sub/", "a/b/", "shared/"}
+	names := []string{"alpha", "beta", "gamma", "delta", "eps", "zeta", "eta", "theta", "iota", "kappa"}
+	for i := len(names) - 1; i > 0; i-- {
+		j := r.Intn(i + 1)
+		names[i], names[j] = names[j], names[i]
+	}
+	type mod struct{ path, name string }
+	mk := func(n string) mod { return mod{path: "idl/" + dirs[r.Intn(len(dirs))] + n + ".thrift", name: n} }
+	rel := func(from, to mod) string {
+		rp, err := filepath.Rel(filepath.Dir(from.path), to.path)
+		if err != nil {
+			panic(err)
+		}
+		if !strings.HasPrefix(rp, ".") {
+			rp = "./" + rp
+		}
+		return rp
+	}
+	chain := make([]mod, depth)
+	for i := range chain {
+		chain[i] = mk(names[i])
+	}
+	p := &idlm.Program{ThriftRoot: "idl"}
+	add := func(m mod, text string) { p.Files = append(p.Files, &idlm.File{Path: m.path, Text: text}) }
+	root := mod{path: "idl/root.thrift", name: "root"}
+	nsib := r.Range(1, 3)
+	sibs := make([]mod, nsib)
+	var rootText strings.Builder
+	incs := []mod{chain[0]}
+	for i := range sibs {
+		sibs[i] = mk(names[depth+i])
+		incs = append(incs, sibs[i])
+	}
+	for i := len(incs) - 1; i > 0; i-- {
+		j := r.Intn(i + 1)
+		incs[i], incs[j] = incs[j], incs[i]
+	}
+	for _, m := range incs {
+		fmt.Fprintf(&rootText, "include \"%s\"\n", rel(root, m))
+	}
+	if r.Chance(1, 2) {
+		fmt.Fprintf(&rootText, "service Top extends %s.Svc0 {\n  void ping()\n}\n", chain[0].name)
+	} else {
+		fmt.Fprintf(&rootText, "struct Holder {\n  1: optional %s.Rec0 rec\n}\n", chain[0].name)
+	}
+	add(root, rootText.String())
+	for i, m := range chain {
+		var t strings.Builder
+		if i+1 < depth {
+			fmt.Fprintf(&t, "include \"%s\"\n", rel(m, chain[i+1]))
+		}
+		fmt.Fprintf(&t, "struct Rec%d {\n  1: optional i32 v\n}\n", i)
+		if i+1 < depth {
+			fmt.Fprintf(&t, "service Svc%d extends %s.Svc%d {\n  Rec%d get%d(1: i64 key)\n}\n", i, chain[i+1].name, i+1, i, i)
+		} else {
+			fmt.Fprintf(&t, "service Svc%d {\n  Rec%d get%d(1: i64 key)\n}\n", i, i, i)
+		}
+		add(m, t.String())
+	}
+	for i, m := range sibs {
+		di := r.Range(2, depth-1)
+		deep := chain[di]
+		var t strings.Builder
+		fmt.Fprintf(&t, "include \"%s\"\n", rel(m, deep))
+		if r.Chance(1, 2) {
+			fmt.Fprintf(&t, "service Side%d extends %s.Svc%d {\n  void side()\n}\n", i, deep.name, di)
+		} else {
+			fmt.Fprintf(&t, "struct SideRec%d {\n  1: optional %s.Rec%d r\n}\n", i, deep.name, di)
+		}
+		add(m, t.String())
+	}
+	return p
+}
+
 // C10 child: one case = one program generated many times.
 func C10(c *core.Child) {
 	outDir := c.Arg("out", "/var/tmp/c10") + ".gen"
 	c.Loop(func(i uint64, r *core.Rand) {
 		o := idlm.SemOpts{MaxFiles: 5, MaxDefs: 6, Services: true, Constants: true, Defaults: true, Dirs: true, ForGen: true, GoAnns: true, Redact: true, PkgNameClash: true, IncludeBias: true, ServiceBias: r.Chance(1, 2), ChainMode: r.Chance(1, 2), ManyTypes: r.Chance(1, 3)}
 		o.Off = offFromArgs(c)
-		p := idlm.GenProgram(r, o)
-		p.RenderAll(r, idlm.PlainLayout)
+		var p *idlm.Program
+		planted := i%6 == 5
+		if planted {
+			p = plantedChain(r)
+			c.Count("planted_inheritance_chains", 1)
+		} else {
+			p = idlm.GenProgram(r, o)
+			p.RenderAll(r, idlm.PlainLayout)
+		}
 		gopt := gen.Options{NoZap: r.Chance(1, 3), EnumTextMarshalStrict: r.Chance(1, 3), NoRecurse: r.Chance(1, 5)}
 		if r.Chance(1, 8) {
 			gopt.OutputFile = "out.go"
+		}
+		if planted {
+			gopt.NoRecurse, gopt.OutputFile = false, ""
 		}
 		c.DumpCase(map[string]any{"files": programText(p)})
 		c.Count("cases", 1)
@@ -199,6 +292,9 @@ func C10(c *core.Child) {
 		nat := 8
 		if c.Tier == "quick" {
 			nat = 4
+		}
+		if planted {
+			nat = 12 // the only source of variation for these is the walk order
 		}
 		for k := 0; k < nat; k++ {
 			if !compare(genOnce(mem, root, nil, gopt, outDir), fmt.Sprintf("in-process natural order run %d", k+2), map[string]any{}) {
